@@ -199,6 +199,29 @@ func ruleR9(c *Ctx, prop string) {
 			}
 		}
 		N := c.forwardSetCtx(normSeeds, nil, scope, D)
+		// a user value is normalised at most once: if the operand of one `x + rank` derives from the result of
+		// ANOTHER normaliser, values in [-2*rank, -rank-1] are shifted into range and pass the range check
+		if len(normSeeds) > 1 {
+			for k, nk := range normSeeds {
+				Nk := c.forwardSetCtx([]ssa.Value{nk}, nil, scope, D)
+				for j, nj := range normSeeds {
+					if j == k {
+						continue
+					}
+					bo := nj.(*ssa.BinOp)
+					x := bo.X
+					if !D.has(x) || (D.has(bo.Y) && Nk.has(bo.Y)) {
+						x = bo.Y
+					}
+					bk := nk.(*ssa.BinOp)
+					later := bk.Parent() != bo.Parent() || (bk.Block() != bo.Block() && bk.Block().Dominates(bo.Block()))
+					if Nk.has(x) && later {
+						c.violate("R9", fmt.Sprintf("R9b:%s:normalised-twice@%s", label, fname(bo.Parent())), c.pos(bo.Pos()),
+							fmt.Sprintf("a user-supplied %s that was already shifted by the rank once (at %s) is shifted again here when still negative: values in [-2*rank, -rank-1] end up in range and are accepted instead of refused", src.kind, c.pos(nk.(*ssa.BinOp).Pos())))
+					}
+				}
+			}
+		}
 		if os.Getenv("R9DEBUG") != "" {
 			fmt.Printf("R9DEBUG %s: |D|=%d normSeeds=%d |N|=%d\n", label, len(D.in), len(normSeeds), len(N.in))
 			for v := range N.in {
